@@ -478,13 +478,61 @@ def str_eq(it, a, b):
                 return False
             return mk_bool(atom.t == z3.StringVal(lit))
         return mk_bool(x.term() == z3.StringVal(lit))
-    # both structured: identical structure decides it, otherwise fall back to the SMT terms
+    # both structured: identical structure decides it
     if len(a.segs) == len(b.segs) and all(
             (g1 is g2 or (not isinstance(g1, bool) and not isinstance(g2, bool) and g1.eq(g2))) and
             (p1 == p2 if isinstance(p1, str) and isinstance(p2, str) else p1 is p2)
             for (g1, p1), (g2, p2) in zip(a.segs, b.segs)):
         return True
+    if all(isinstance(p, str) for _, p in a.segs) and all(isinstance(p, str) for _, p in b.segs):
+        return _eq_guarded_both(a, b)
     return mk_bool(a.term() == b.term())
+
+
+def _chars(x):
+    out = []
+    for g, p in x.segs:
+        for ch in p:
+            out.append((g, ch))
+    return out
+
+
+def _eq_guarded_both(x, y):
+    """x == y for two strings made of guarded literal pieces only: an exact Boolean condition over
+    the guards, by dynamic programming over the two character sequences."""
+    import sys
+    cx, cy = _chars(x), _chars(y)
+    n, m = len(cx), len(cy)
+    sys.setrecursionlimit(max(sys.getrecursionlimit(), 4 * (n + m) + 1000))
+    memo = {}
+
+    def E(i, j):
+        key = (i, j)
+        if key in memo:
+            return memo[key]
+        if i == n and j == m:
+            r = True
+        elif i == n:
+            g, _ = cy[j]
+            r = False if g is True else b_and(b_not(mk_bool(g)), E(i, j + 1))
+        elif j == m:
+            g, _ = cx[i]
+            r = False if g is True else b_and(b_not(mk_bool(g)), E(i + 1, j))
+        else:
+            (gx, chx), (gy, chy) = cx[i], cy[j]
+            opts = []
+            if gx is not True:
+                opts.append(b_and(b_not(mk_bool(gx)), E(i + 1, j)))
+            if gy is not True:
+                opts.append(b_and(mk_bool(gx) if gx is not True else True, b_not(mk_bool(gy)),
+                                  E(i, j + 1)))
+            if chx == chy:
+                opts.append(b_and(mk_bool(gx) if gx is not True else True,
+                                  mk_bool(gy) if gy is not True else True, E(i + 1, j + 1)))
+            r = b_or(*opts) if opts else False
+        memo[key] = r
+        return r
+    return E(0, 0)
 
 
 def _eq_guarded_literal(x, lit):
